@@ -25,6 +25,9 @@ def make_jobs(tier):
     for flavour in ("sync", "astd", "tok"):
         for algo, n in combos:
             jobs.append({"flavour": flavour, "algo": algo, "n": n})
+    for flavour in ("sync", "astd", "tok"):
+        for n in (5, 8193):
+            jobs.append({"kind": "short", "flavour": flavour, "n": n})
     return jobs
 
 
@@ -36,7 +39,102 @@ def bufsizes(n, quick):
     return [8192] if quick else [1024, 8192, n + 1]
 
 
+def short_worker(ctx, job):
+    """Every read of a checked retrieval answered short (a legal POSIX answer), on pristine and damaged content:
+    a checker that is fed the buffer instead of the bytes actually read would pass every test and fail here."""
+    import json as _json
+    from vlib import fsx
+    res = V.new()
+    flavour, n = job["flavour"], job["n"]
+    side = "s" if flavour == "sync" else "a"
+    suf = "_sync" if side == "s" else ""
+    setup = ctx.srv("sync")
+    cache = ctx.path("c01s-cache")
+    aux = ctx.path("c01s-aux")
+    fsutil.wipe(cache)
+    fsutil.wipe(aux)
+    os.makedirs(aux)
+    data = ref.gen(n, 43)
+    key = "the-key"
+    wr.do_write(setup, cache, side="s", entry="oneshot", key=key, n=n, tag=43)
+    sri = ctx.sri("sha256", data)
+    cpath = os.path.join(cache, ref.content_rel(sri))
+    base = fsutil.snapshot(cache)
+    dest = os.path.join(aux, "dest")
+    want = {"len": n, "sha256": ref.sha256hex(data)}
+    progs = {
+        "read": [{"op": "read" + suf, "cache": cache, "key": key}],
+        "read_hash": [{"op": "read_hash" + suf, "cache": cache, "sri": sri}],
+        "stream": [{"op": ("sr_" if side == "s" else "ar_") + "open", "cache": cache, "key": key}, {"op": "r_stream", "h": {"ref": 0}, "n": 1000}],
+        "copy": [{"op": "copy" + suf, "cache": cache, "key": key, "to": dest}],
+        "hard_link": [{"op": "hard_link" + suf, "cache": cache, "key": key, "to": dest}],
+    }
+    d = bytearray(data)
+    d[n // 2] ^= 0x04
+    states = {"pristine": data, "bitflip": bytes(d), "truncated": data[:-1], "extended": data + b"\x00"}
+    for sname, content in states.items():
+        for ename, prog in progs.items():
+            pf = ctx.path("prog-c01s.json")
+            with open(pf, "w") as fh:
+                _json.dump(prog, fh)
+
+            def run_one(faults):
+                fsutil.restore(cache, base)
+                with open(cpath, "wb") as fh:
+                    fh.write(content)
+                fsutil.wipe(dest)
+                return fsx.run({"roots": [cache, aux], "actors": [fsx.actor(flavour, "R", pf)], "timeout_ms": 20000, "faults": faults}, ctx.dir)
+
+            probe = run_one([])
+            steps = [s_ for s_ in probe["steps"] if s_.get("step") is not None]
+            sets = [[]]
+            for i, st in enumerate(steps):
+                if st["sys"] in ("read", "pread64") and st["len"] > 1:
+                    for t in fsx.short_lengths(min(st["len"], max(n, 2))):
+                        sets.append([{"step": i, "short": t, "sysname": st["sys"]}])
+            if ctx.tier != "quick":
+                singles = [x[0] for x in sets[1:]]
+                for a_ in singles[:6]:
+                    for b_ in singles:
+                        if b_["step"] > a_["step"]:
+                            sets.append([a_, b_])
+            for faults in sets:
+                rep = run_one(faults)
+                res["evals"] += 1
+                fdesc = "+".join("%s@%d->%d" % (f["sysname"], f["step"], f["short"]) for f in faults) or "none"
+                res["distinct"].add(V.h("short", flavour, n, sname, ename, fdesc))
+                replay = {"engine": "fsx", "mode": "short", "flavour": flavour, "n": n, "content": sname, "entry": ename, "faults": faults}
+                sig = "checked-read-short:%s%s:%s" % (ename, suf, sname)
+                if rep["status"] != "ok":
+                    V.violation(res, sig + ":" + rep["status"], "execution under short reads %s: %s" % (fdesc, rep["status"]), replay)
+                    continue
+                out = fsx.replies(rep, 0)
+                last = out[-1] if out else {"missing": True}
+                V.outcome(res, "short:%s:%s" % (sname, classify(last)))
+                if not ("ok" in last or "err" in last) or last.get("panics"):
+                    V.violation(res, sig + ":" + classify(last), "call did not return a value: %s" % _short(last), replay)
+                    continue
+                if "ok" in last:
+                    if ename in ("copy", "hard_link"):
+                        b = damage.read_dest(dest)
+                        delivered = {"len": -1 if b is None else len(b), "sha256": "" if b is None else ref.sha256hex(b)}
+                    elif ename == "stream":
+                        delivered = last["ok"]["data"]
+                    else:
+                        delivered = last["ok"]
+                    if delivered["len"] != want["len"] or delivered["sha256"] != want["sha256"]:
+                        V.violation(res, sig + ":delivered-wrong-bytes", "with short reads %s on %s content, %s succeeded and delivered %s" % (fdesc, sname, ename, delivered), replay)
+                elif sname == "pristine":
+                    V.violation(res, sig + ":" + classify(last), "short reads %s made the retrieval of intact content fail: %s" % (fdesc, _short(last)), replay)
+    fsutil.wipe(cache)
+    fsutil.wipe(aux)
+    res["samples"].append({"kind": "short-reads", "flavour": flavour, "n": n})
+    return res
+
+
 def worker(ctx, job):
+    if job.get("kind") == "short":
+        return short_worker(ctx, job)
     res = V.new()
     flavour, algo, n = job["flavour"], job["algo"], job["n"]
     quick = ctx.tier == "quick"
